@@ -1,4 +1,5 @@
 """C14 - file caches return the value for the key, or recompute."""
+import copy
 import json
 import shutil
 import tempfile
@@ -9,7 +10,21 @@ from ..coqlit import cbool, clist, cnat, copt, cpair, cstr
 from ..values import cspec
 
 KEYS = ['key', 'k2', '', 'é', '中😀', 'a/b', '{"x": 1}', 'key ', 'KEY', '../x', 'abcde']
-SUBS = [[], [], ['sub'], ['abcde'], ['sub', 'x'], ['0a1b2']]
+SUBS = [[], [], ['sub'], ['abcde'], ['sub', 'x'], ['0a1b2'], ['models/v1'], ['features/v1'], ['v1'], ['models', 'v1']]
+
+
+def scribble(v):
+    """the caller modifies, in place, the value a cache call returned"""
+    if isinstance(v, list):
+        v.append('SCRIBBLE')
+    elif isinstance(v, dict):
+        v['SCRIBBLE'] = 1
+    return v
+
+
+def slot_of(op):
+    """a sub-cache name with several components is the nesting of its components"""
+    return (tuple(x for s in op['sub'] for x in s.split('/')), op['key'])
 VALUES = [0, 1, '', 'v', [], {}, [1, 'x'], {'a': [1, 2], 'b': None}, None, False, True, 2.5, {'key': 'k', 'value': 1}]
 
 
@@ -148,7 +163,8 @@ Definition cache_model (c : bool * list cop) : list (cout * nat) :=
                 if kind == 'get':
                     try:
                         v = c.get(op['key'])
-                        outs.append(dict(kind='novalue') if v is NO_VALUE else dict(value=self.from_py(v)))
+                        outs.append(dict(kind='novalue') if v is NO_VALUE else dict(value=copy.deepcopy(self.from_py(v))))
+                        scribble(v)
                     except CacheException:
                         outs.append(dict(kind='cache_exc'))
                 elif kind == 'goc':
@@ -156,10 +172,11 @@ Definition cache_model (c : bool * list cop) : list (cout * nat) :=
                         calls[0] += 1
                         if op['comp'] is None:
                             raise Boom()
-                        return self.to_py(op['comp'][0])
+                        return self.to_py(copy.deepcopy(op['comp'][0]))
                     try:
                         v = c.get_or_compute(op['key'], computer, force=op['force'])
-                        outs.append(dict(value=self.from_py(v)))
+                        outs.append(dict(value=copy.deepcopy(self.from_py(v))))
+                        scribble(v)
                     except CacheException:
                         outs.append(dict(kind='cache_exc'))
                     except Boom:
@@ -197,7 +214,7 @@ Definition cache_model (c : bool * list cop) : list (cout * nat) :=
             return f'unexpected exception {obs["unexpected_exception"]}: {obs["text"]}'
         store = {}
         for j, (op, o) in enumerate(zip(case['ops'], obs['outs'])):
-            slot = (tuple(op['sub']), op['key'])
+            slot = slot_of(op)
             allow = case['allow_nones'] or bool(op['sub']) or not self.checks_key
             kind = op['op']
             ent = store.get(slot)          # ('ok', v) | ('damaged',) | ('foreign', other, v) | None
